@@ -213,13 +213,20 @@ def check(ctx: Ctx) -> None:
         if not ok:
             ob.violation(h, h.node, "_channel_exec does not schedule the payload on the channel with the received id")
         fr = repo.func(f"{GB}.Message.received")
-        from ..util import xtext as _xt
-        disp = [_xt(repo, fr, c.func) for c in repo.calls_in(fr) if "_types" in _xt(repo, fr, c.func)]
-        if not any(d.startswith("self._types[self.msgcode]") and (d.endswith("[1]") or d.endswith(".handler")) for d in disp):
-            ob.violation(fr, fr.node, "Message.received does not dispatch on its own msgcode")
-        hc = [c for c in repo.calls_in(fr) if "_types" in _xt(repo, fr, c.func)]
-        if len(hc) != 1 or [unparse(a) for a in hc[0].args] != [fr.params()[0], fr.params()[1]]:
-            ob.violation(fr, fr.node, "Message.received does not call the handler exactly once with (message, gateway)")
+        from ..terms import const as _kc, evaluator as _evr
+        WANT = ("idx", ("idx", ("sym", "self._types"), ("sym", "self.msgcode")), _kc(1))
+        gwp = [p_ for p_ in fr.params() if p_ != "self"][0]
+        okd = True
+        npd = 0
+        for (_pp, st_r) in _evr(repo, fr).run(limit=2000):
+            if _pp[-1][0] not in (0,) and False:
+                pass
+            hcalls = [e for e in st_r.events if e.kind == "call" and e.recv is not None and (e.recv == WANT or (e.recv[0] == "dictget" and e.recv[1:3] == WANT[1][1:3]))]
+            npd += 1
+            if len(hcalls) != 1 or hcalls[0].args != (("sym", "self"), ("sym", gwp)):
+                okd = False
+        if not okd or npd == 0:
+            ob.violation(fr, fr.node, "Message.received does not dispatch on its own msgcode, calling the handler exactly once with (message, gateway)")
         # every code some _send site uses has a handler; payload encoding agrees
         sites = send_sites(repo)
         ob.require(len(sites) >= 12, f"{len(sites)} _send sites (floor 12)")
